@@ -4,6 +4,7 @@ use crate::common::*;
 use crate::frontends::{self, Wrap};
 use crate::textgen;
 use harper_core::linting::{LintGroup, Linter};
+use harper_core::parsers::Parser;
 use harper_core::{Dialect, Document, FstDictionary};
 use serde_json::{Value, json};
 use std::cell::RefCell;
@@ -99,9 +100,24 @@ pub fn prefixes(text: &str, rng: &mut Rng) -> Vec<String> {
     out
 }
 
-fn classify(msg: &str) -> String {
+fn classify(msg: &str, text: &str) -> String {
     // class = source location of the panic: two different panics are two different findings
     let loc = msg.rsplit(" @ ").next().unwrap_or("");
+    // recorded finding: pulldown-cmark 0.13.0 emits the events after a wikilink `[[name|]]` (pipe,
+    // empty display text) twice, the first time as children of the link; markdown.rs then slices
+    // the source by a Text event's length at a cursor that has already moved past that event
+    if loc.ends_with("parsers/markdown.rs:256") && msg.contains("out of range for slice") && text.contains("|]]") {
+        return "c01-md-wikilink-empty-alias".into();
+    }
+    // recorded finding: pulldown-cmark's tab-expansion Text event with an empty range gives an
+    // Unlintable token that ends after the end of the text (c02-md-synthetic-text); the Mask-based
+    // Markdown front-ends (git commit, Literate Haskell) then read its content
+    if loc.ends_with("harper-core/src/span.rs:67") && msg.contains("Could not get position") {
+        let synthetic = guarded(|| crate::c02md::has_synthetic_text(&crate::c02md::events_of(text))).unwrap_or(false);
+        if synthetic {
+            return "c01-md-synthetic-text".into();
+        }
+    }
     format!("panic@{}", loc)
 }
 
@@ -122,7 +138,7 @@ pub fn run_unit(job: &Job, prefs: &[String]) -> UnitResult {
         for p in &ps {
             if let Err(m) = run_one(&j, p) {
                 if fails.len() < 3 {
-                    fails.push((classify(&m), format!("{} panicked: {}", j.name(), m), j.to_json(p)));
+                    fails.push((classify(&m, p), format!("{} panicked: {}", j.name(), m), j.to_json(p)));
                 }
             }
         }
@@ -145,10 +161,23 @@ pub fn run_unit(job: &Job, prefs: &[String]) -> UnitResult {
                 }
                 match r {
                     None => {
-                        fails.push(("hang".into(), format!("{} did not finish within 30 s on a {}-char text", job.name(), p.chars().count()), job.to_json(p)));
+                        // where does it hang? if the front-end's parser alone (for a programming
+                        // language: the tree-sitter grammar, before any Harper code sees a token)
+                        // does not return either, the class names that grammar
+                        let class = {
+                            let (id, p3) = (job.id.clone(), p.clone());
+                            let parse_only = with_timeout(8000, move || {
+                                let parser = frontends::parser_for(&id, false);
+                                let cs: Vec<char> = p3.chars().collect();
+                                parser.map(|pp| pp.parse(&cs).len())
+                            });
+                            let ts = harper_comments::CommentParser::new_from_language_id(&job.id, frontends::md_opts(false)).is_some();
+                            if parse_only.is_none() && ts { format!("hang-in-tree-sitter-grammar:{}", job.id) } else { "hang".to_string() }
+                        };
+                        fails.push((class, format!("{} did not finish within 30 s on a {}-char text", job.name(), p.chars().count()), job.to_json(p)));
                         break; // the stuck thread keeps a core busy; one witness is enough
                     }
-                    Some(Ok(Err(m))) => fails.push((classify(&m), format!("{} panicked: {}", job.name(), m), job.to_json(p))),
+                    Some(Ok(Err(m))) => fails.push((classify(&m, p), format!("{} panicked: {}", job.name(), m), job.to_json(p))),
                     _ => {}
                 }
             }
@@ -215,8 +244,9 @@ pub fn run(ctx: &Ctx) {
     let corpus = [
         "the how", "better then ", "It is better then ", "/** {@link */", "/** See {@link Foo", ">", "> ", "\\begin{code}\n>",
         "First. one two three four five six seven eight nine ten eleven twelve thirteen fourteen fifteen sixteen seventeen eighteen nineteen twenty twenty-one two three four five six seven eight nine thirty one two three four five six seven eight nine forty one two\n",
-        "#let", "#let x", "#set text(lang:", "#f(a\nb $x$ c", "//go:x\n//\n", "//go:generate\n//", "[[||]]", "See [[|alias|extra]]", "\\[[target|alias|extra]]", "[[a|[b](x)|c]]", "You could of \ncourse do it.", "He should of\n course.", "See e.g.", "e.g.", "1e999$", "0x", "[a-", "a@", "http://", "x:", "\"", "'", "’s",
+        "#let", "#let x", "#set text(lang:", "#f(a\nb $x$ c", "[d.I", "//go:x\n//\n", "//go:generate\n//", "[[||]]", "See [[|alias|extra]]", "\\[[target|alias|extra]]", "[[a|[b](x)|c]]", "![[b c|]]b c[- ", "[[a|]]b c d", " ```\n\tx", "$$$$x", "You could of \ncourse do it.", "He should of\n course.", "See e.g.", "e.g.", "1e999$", "0x", "[a-", "a@", "http://", "x:", "\"", "'", "’s",
     ];
+    let corpus: Vec<&str> = corpus.iter().copied().chain(textgen::LEXER_CORNERS.iter().copied()).collect();
     for id in &ids {
         for (k, c) in corpus.iter().enumerate() {
             push(id, c.to_string(), k, &mut jobs);
